@@ -83,10 +83,10 @@ impl<'a> ZoneGroupCollector<'a> {
     fn handle_not(&self, child: &FilterGroup) -> Vec<CandidateZone> {
         match child {
             // NOT(Filter): Compute complement - all zones minus zones matching filter
-            FilterGroup::Filter { .. } => {
-                let matching_zones = self.collect_zones_from_group(child);
-                self.compute_complement(&matching_zones)
-            }
+            // NOT(Filter): a zone that matches the filter may also hold rows that do not, so
+            // the complement of the matching zones is not a superset of the zones holding a
+            // row that satisfies the negation. Keep every zone; rows are re-evaluated later.
+            FilterGroup::Filter { .. } => self.get_all_zones_for_segments(self.plan, self.caches),
             // NOT(AND): De Morgan's law -> NOT A OR NOT B OR ...
             FilterGroup::And(children) => {
                 let not_children: Vec<FilterGroup> = children
